@@ -615,7 +615,7 @@ def run_shape(mir, src_texts, shape, with_goal, budget_s, stats, failures, max_f
 def shapes_for(tier):
     """quick: every shape of 1..2 rules (1..2 targets, 0..2 sources each) and the 3-rule shapes with at most
     3 sources in total (single-target) or at most 2 (one two-target rule);
-    thorough: every 3-rule shape with one optional two-target rule, and 4 single-target rules with at most 4 sources."""
+    thorough: the 3-rule shapes with at most 4 sources (3 with a two-target rule), and 4 single-target rules with at most 3 sources."""
     T = [(1, 0), (1, 1), (1, 2), (2, 0), (2, 1), (2, 2)]
     one = [(1, 0), (1, 1), (1, 2)]
     out = []
@@ -628,11 +628,12 @@ def shapes_for(tier):
         srcs = sum(s_ for t, s_ in sh)
         if twos > 1:
             continue
-        if tier == "thorough" or (twos == 0 and srcs <= 3) or (twos == 1 and srcs <= 2):
+        lim = (4, 3) if tier == "thorough" else (3, 2)      # (each further symbolic name multiplies the classes by 5-8)
+        if (twos == 0 and srcs <= lim[0]) or (twos == 1 and srcs <= lim[1]):
             out.append(list(sh))
     if tier == "thorough":
         for sh in itertools.product(one, repeat=4):
-            if sum(s_ for t, s_ in sh) <= 4:
+            if sum(s_ for t, s_ in sh) <= 3:
                 out.append(list(sh))
     return out
 
@@ -753,7 +754,7 @@ def run(pid, tier, seed):
         inconclusive.append("MIR dump failed: " + err[-400:])
         return failures, inconclusive, stats, samples, mir_s, time.time() - t0
     mir_path = os.path.join(WORK, "mir_dump.txt")
-    per_task = 240 if tier == "quick" else 3000
+    per_task = 900 if tier == "quick" else 3000     # (a cap against runaway shapes; on an idle machine the largest quick shape takes under a minute)
     shapes = shapes_for(tier)
     # heaviest first, so that the pool stays busy to the end
     tasks = sorted([(mir_path, sh, g, per_task) for sh in shapes for g in (False, True)], key=lambda a: -sum(1 + t + s for t, s in a[1]))
@@ -775,10 +776,50 @@ def run(pid, tier, seed):
     return failures, inconclusive[:8], stats, samples, mir_s, time.time() - t0
 
 
+def run_cached(pid, tier, seed):
+    import hashlib
+    h = hashlib.sha256()
+    h.update(open("/repo/src/sort.rs", "rb").read())
+    h.update(open("/repo/src/rule.rs", "rb").read())
+    for f in ("sort_engine.py", "mirint.py"):
+        h.update(open(os.path.join(VERIF, "lib", f), "rb").read())
+    h.update(("%s %s" % (tier, seed)).encode())
+    dig = h.hexdigest()[:24]
+    cache = os.path.join(WORK, "sort_cache_%s.json" % tier)
+    if os.environ.get("VERIF_NO_CACHE") != "1" and os.path.exists(cache):
+        try:
+            c = json.load(open(cache))
+            if c.get("digest") == dig:
+                st = c["stats"]
+                st["models"] = set(st["models"])
+                return c["failures"], c["inconclusive"], st, c["samples"], c["mir_s"], c["wall"]
+        except Exception:
+            pass
+    failures, inconclusive, stats, samples, mir_s, wall = run(pid, tier, seed)
+    st = dict(stats)
+    st["models"] = sorted(stats["models"])
+    if not inconclusive:        # (a run cut short by a budget is never reused)
+        try:
+            json.dump({"digest": dig, "failures": failures, "inconclusive": inconclusive, "stats": st, "samples": samples, "mir_s": mir_s, "wall": wall}, open(cache, "w"))
+        except TypeError:
+            pass
+    return failures, inconclusive, stats, samples, mir_s, wall
+
+
+# which of the sorter's clauses other properties rest on (C12 owns all of them)
+RELEVANT = {
+    "C09": ["the plan does not contain exactly the goal's rule", "the plan contains an entry that is no rule in scope", "'target missing'", "the goal is no rule's target"],
+    "C03": ["a rule is placed before (or at) a rule producing one of its sources", "a source is bound to the wrong producing rule", "a plan entry does not bind every source",
+            "a source that some rule produces is treated as a plain file", "a plain source file is bound to a rule", "a leaf source is bound to the wrong leaf"],
+}
+
+
 def check(pid, tier, seed):
     """-> (exit_code, evidence dict, stdout lines)"""
     import findings
-    failures, inconclusive, stats, samples, mir_s, wall = run(pid, tier, seed)
+    failures, inconclusive, stats, samples, mir_s, wall = run_cached(pid, tier, seed)
+    if pid in RELEVANT:
+        failures = [f for f in failures if any(k in f["what"] for k in RELEVANT[pid])]
     known = findings.load()
     enums, _ = mirint.crate_types([open("/repo/src/sort.rs", encoding="utf-8").read()])
     lines, reported, known_hits = [], [], []
@@ -823,7 +864,7 @@ def check(pid, tier, seed):
             "shapes_explored": stats["shapes"], "forks": stats["forks"],
             "functions_encoded": funcs,
             "encoding": "rustc nightly -Zunpretty=mir of the regenerated copy of /repo/src -> lib/mirint.py path-forking interpretation with symbolic names -> z3 %s; MIR dump %.1fs" % (z3.get_version_string(), mir_s),
-            "bounds": "quick: every shape of 1..2 rules (1..2 targets, 0..2 sources each, at most one two-target rule) and the 3-rule shapes with <= 3 sources in total (<= 2 when one rule has two targets); thorough: every 3-rule shape with at most one two-target rule and 4 single-target rules with <= 4 sources; names unconstrained (any strings: only = and < are observed); goal none / any name; both input orders",
+            "bounds": "quick: every shape of 1..2 rules (1..2 targets, 0..2 sources each, at most one two-target rule) and the 3-rule shapes with <= 3 sources in total (<= 2 when one rule has two targets); thorough: the 3-rule shapes with <= 4 sources in total (<= 3 when one rule has two targets) and 4 single-target rules with <= 3 sources; names unconstrained (any strings: only = and < are observed); goal none / any name; both input orders",
             "library_models": sorted(stats["models"]),
             "solver_queries": stats["queries"], "solver_time_s": round(stats["solver_s"], 2),
             "counterexamples_replayed_natively": replayed,
